@@ -8,6 +8,7 @@ package actor
 //                          yielding sync shim) under the deterministic scheduler
 
 import (
+	"context"
 	"fmt"
 	"sort"
 	"strconv"
@@ -24,6 +25,15 @@ type vTreeH struct {
 	mu    sync.Mutex
 	e     *Engine
 	order []string // "X:<path>:<registered 0|1>" in the order Stopped was handled
+	ctx   context.Context // non-nil: every actor of this history is spawned WithContext(ctx), and ctx is ALREADY cancelled
+}
+
+func (h *vTreeH) opts() []OptFunc {
+	o := []OptFunc{WithID("n"), WithMaxRestarts(0), WithInboxSize(4)}
+	if h.ctx != nil {
+		o = append(o, WithContext(h.ctx))
+	}
+	return o
 }
 
 type vTreeSpawn struct {
@@ -61,7 +71,7 @@ func (a *vTreeActor) Receive(c *Context) {
 		a.h.mu.Unlock()
 	case vTreeSpawn:
 		child := a.path + "." + m.name
-		pid := c.SpawnChild(func() Receiver { return &vTreeActor{h: a.h, path: child, crashOnStart: m.crashOnStart} }, m.name, WithID("n"), WithMaxRestarts(0), WithInboxSize(4))
+		pid := c.SpawnChild(func() Receiver { return &vTreeActor{h: a.h, path: child, crashOnStart: m.crashOnStart} }, m.name, a.h.opts()...)
 		m.ack <- pid.ID
 	case vTreeQuery:
 		var names []string
@@ -148,8 +158,13 @@ func runTreeHistory(t testing.TB, ops []string) string {
 	for _, op := range ops {
 		kind, arg := op[:2], op[2:]
 		switch kind {
-		case "rt": // spawn a root
-			e.Spawn(func() Receiver { return &vTreeActor{h: h, path: arg} }, arg, WithID("n"), WithMaxRestarts(0), WithInboxSize(4))
+		case "rt", "rx": // spawn a root; rx: the user context handed to every actor of the history (WithContext) is already cancelled
+			if kind == "rx" {
+				cctx, cancel := context.WithCancel(context.Background())
+				cancel()
+				h.ctx = cctx
+			}
+			e.Spawn(func() Receiver { return &vTreeActor{h: h, path: arg} }, arg, h.opts()...)
 			live[arg] = true
 			out = append(out, "ok")
 		case "sc", "sx": // sc<parentpath>:<name>; sx = the child panics in Started (budget 0): it is gone when SpawnChild returns
@@ -239,6 +254,74 @@ func runTreeHistory(t testing.TB, ops []string) string {
 				delete(live, p)
 			}
 			out = append(out, res+" order="+strings.Join(takeOrder(), ","))
+		case "tp": // tp<parent>: the parent shuts down; while it waits for a slow child a third party stops a sibling
+			var kids []string
+			for p := range live {
+				if strings.HasPrefix(p, arg+".") && !strings.Contains(p[len(arg)+1:], ".") {
+					kids = append(kids, p)
+				}
+			}
+			sort.Strings(kids)
+			busy := false
+			for hp := range held {
+				if hp == arg || strings.HasPrefix(hp, arg+".") {
+					busy = true
+				}
+			}
+			if !live[arg] || len(kids) < 2 || busy {
+				out = append(out, "skip")
+				continue
+			}
+			slow, victim := kids[0], kids[len(kids)-1]
+			sub := subtree(arg)
+			takeOrder()
+			hd := vTreeHold{make(chan struct{}, 1), make(chan struct{})}
+			e.Send(pidOf(slow), hd)
+			<-hd.ack
+			done := e.Poison(pidOf(arg)).Done()
+			// synchronisation point: the parent's pill sits in the slow child's inbox. From here on the parent
+			// waits for the slow child, and the victim is either gone already (it came first) or untouched.
+			queued := func() bool {
+				if pr, ok := e.Registry.get(pidOf(slow)).(*process); ok {
+					if in, ok := pr.inbox.(*Inbox); ok {
+						return in.rb.Len() >= 1
+					}
+				}
+				return false
+			}
+			deadline := time.Now().Add(3 * time.Second)
+			for !queued() && time.Now().Before(deadline) {
+				time.Sleep(time.Millisecond)
+			}
+			res := "done"
+			if !queued() {
+				res = "NOPILL"
+			}
+			if e.Registry.get(pidOf(victim)) != nil {
+				select {
+				case <-e.Poison(pidOf(victim)).Done():
+				case <-time.After(3 * time.Second):
+					res = "VICTIM-HANG"
+				}
+			}
+			close(hd.ch)
+			select {
+			case <-done:
+				for _, p := range sub {
+					if e.Registry.get(pidOf(p)) != nil {
+						res = "done!still-registered:" + p
+					}
+				}
+			case <-time.After(3 * time.Second):
+				res = "HANG"
+			}
+			if res != "HANG" && !waitGone(sub) {
+				res += "!not-all-stopped"
+			}
+			for _, p := range sub {
+				delete(live, p)
+			}
+			out = append(out, res+" order="+strings.Join(takeOrder(), ","))
 		case "hp": // hold a node inside Receive and queue a graceful pill behind the hold (a third party poisons it)
 			if !live[arg] {
 				out = append(out, "skip")
@@ -290,6 +373,9 @@ func TestVerifTree(t *testing.T) {
 	for i := 0; i < n; i++ {
 		rr := r.Fork()
 		ops := []string{"rtr"}
+		if rr.Chance(1, 4) {
+			ops = []string{"rxr"} // the user's own context (WithContext) is cancelled: no bearing on stopping
+		}
 		nodes := []string{"r"}
 		// build a random tree: depth <= 4, fan-out <= 4
 		nb := 1 + rr.Intn(9)
@@ -322,7 +408,7 @@ func TestVerifTree(t *testing.T) {
 		k := 1 + rr.Intn(5)
 		for j := 0; j < k; j++ {
 			p := vgen.Pick(rr, nodes)
-			ops = append(ops, vgen.Pick(rr, []string{"ch", "ch", "st", "po", "ss", "cr"})+p)
+			ops = append(ops, vgen.Pick(rr, []string{"ch", "ch", "st", "po", "ss", "cr", "tp"})+p)
 			if rr.Chance(1, 2) {
 				ops = append(ops, "ch"+vgen.Pick(rr, nodes))
 			}
